@@ -949,6 +949,7 @@ func main() {
 		"json.Marshal -> json.Unmarshal -> RepopulatePhysicalExpressionFunctions -> Materialize -> Evaluate, compared with the host's evaluation; signatures of no descriptor; " +
 		"end to end through the CLI and a test plugin binary: WHERE clauses (atoms, and/or, pushable conjunct + conjunct with a subquery that stays on the host, subquery below cast / type assertion / field access) against CSV/JSON files of the same data, " +
 		"event-time streams (records + watermarks) whose received order must be the produced order, " +
+		"the plugin table below correlated subqueries / lookup joins (re-run per outer record with a different variable context), " +
 		"and joins / IN-subqueries over 2-3 references of a plugin table whose rows and schema depend on its options (same or different options, any order); " +
 		"non-trivial = composite value/type, non-empty schema/record, multi-frame context, call of an overloaded or TypeFn-declared function; distinct by full case text"
 
